@@ -239,6 +239,14 @@ def make_ref(expr):
                 ref = f"{expr.kind}_{make_ref(expr.operands[0])}"
             else:
                 ref = f"{expr.kind}_{toidentifier(expr.operands[0])}"
+                # Constants of equal value but different type must not
+                # share a variable: the name is owned by the constant
+                # that used it first, constants of another type get
+                # the type name appended.
+                owners = expr.context.__dict__.setdefault("_constant_ref_owners", {})
+                owner = owners.setdefault(ref, expr)
+                if owner is not expr and not owner.get_type().is_same(expr.get_type()):
+                    ref = f"{ref}_{toidentifier(str(expr.get_type()))}"
             assert len(ref) < 50, type(expr.operands[0])
         elif expr.kind == "absolute":
             # using abs for BC
